@@ -152,6 +152,7 @@ type decision9 struct {
 	victims  map[uint64]bool
 	nReal    int
 	fitsExp  bool
+	lowering bool
 	added    bool
 	wasRes   bool
 	rejected bool
@@ -1058,7 +1059,14 @@ func (e *Engine) raceOp(cl *client, op Op) {
 	case OpClear:
 		e.api.Clear()
 	case OpUpdateMaxCost:
-		e.api.UpdateMaxCost(e.api.MaxCost() + op.Arg)
+		target := e.api.MaxCost() + op.Arg
+		if op.Arg < -(1 << 49) {
+			target = op.Arg + (1 << 50)
+		}
+		if target < 1 {
+			target = 1
+		}
+		e.api.UpdateMaxCost(target)
 	case OpMaxCost:
 		e.api.MaxCost()
 	case OpRemaining:
@@ -1201,6 +1209,9 @@ func (e *Engine) runOp(cl *client, oi int, op Op) {
 		wasClosed := e.closed
 		e.api.Clear()
 		e.log(Ev{Kind: EvReturn, Op: OpClear, Task: tk, OpIx: ix, Ref: inv, B: b2i(wasClosed)})
+		if !wasClosed && !e.clearDirty && atomic.LoadInt32(&e.clearActive) == 1 && atomic.LoadInt32(&e.inflight) == 1 {
+			e.checkFreshAfterCleanClear(inv)
+		}
 		e.clearEnd(wasClosed)
 		e.opEnd(cl)
 	case OpUpdateMaxCost:
@@ -1213,8 +1224,15 @@ func (e *Engine) runOp(cl *client, oi int, op Op) {
 		defer atomic.StoreInt32(&e.upmaxBusy, 0)
 		e.opBegin(cl, op)
 		cur := e.api.MaxCost()
-		inv := e.log(Ev{Kind: EvInvoke, Op: OpUpdateMaxCost, Task: tk, OpIx: ix, A: cur + op.Arg})
-		e.api.UpdateMaxCost(cur + op.Arg)
+		target := cur + op.Arg
+		if op.Arg < -(1 << 49) {
+			target = op.Arg + (1 << 50) // absolute small value
+		}
+		if target < 1 {
+			target = 1
+		}
+		inv := e.log(Ev{Kind: EvInvoke, Op: OpUpdateMaxCost, Task: tk, OpIx: ix, A: target})
+		e.api.UpdateMaxCost(target)
 		e.log(Ev{Kind: EvReturn, Op: OpUpdateMaxCost, Task: tk, OpIx: ix, Ref: inv})
 		e.opEnd(cl)
 	case OpMaxCost, OpRemaining, OpMetrics:
